@@ -221,6 +221,12 @@ func deepCopy(src *lazyNode, options *ApplyOptions) (*lazyNode, int, error) {
 	if err != nil {
 		return nil, 0, err
 	}
+	// The copy is decoded again with functions that assume well-formed
+	// input. Earlier copies can have nested the value deeper than the
+	// decoder goes, so make sure of it here.
+	if !json.Valid(a) {
+		return nil, 0, fmt.Errorf("copied value is not decodable (nested too deeply?): %w", ErrInvalid)
+	}
 	sz := len(a)
 	return newLazyNode(newRawMessage(a)), sz, nil
 }
